@@ -1,7 +1,7 @@
 (** Extraction of the executable model for the correspondence check.
     Only [ExtrOcamlBasic] is used (bool, option, list, prod, unit, sumbool map
     to OCaml's own); nat stays the Coq datatype.  No [Extract Constant]. *)
-From CB Require Import Driver NetDriver.
+From CB Require Import Driver NetDriver TraceEnv.
 Require Extraction.
 Require ExtrOcamlBasic.
 Extraction Language OCaml.
@@ -9,4 +9,5 @@ Extraction "model.ml"
   run_spec step_spec enabled_spec cfg0_spec trace_spec viols_spec depth_spec dead_spec
   monitor_trace classes_trace smonitor_trace run_pipe_spec
   trun tcheck tinit tstep1 tfinished ttrace
-  chain_net chain_step chain_trace chain_idle chain_viols.
+  chain_net chain_step chain_trace chain_idle chain_viols
+  enabled_on_trace conformant_trace.
